@@ -228,8 +228,8 @@ class CircuitResult:
         else:
             self.num_qubits = len(qubits)
             for key, value in counts.items():
-                key = key.replace(" ", "")  # might contain spaces to separate registers
-                key = "".join(key[index] for index in qubits)
+                key = key.split(" ")[0]  # might contain spaces to separate registers, measure_all() adds its register leftmost
+                key = "".join(key[len(key) - 1 - index] for index in reversed(qubits))  # little-endian: qubit 0 is rightmost
                 self.results.append(BinaryResult(Bitstring(int(key, 2)), value))
 
     def __str__(self) -> str:
